@@ -1,6 +1,7 @@
 package chain
 
 import (
+	"strings"
 	"bytes"
 	"fmt"
 	"reflect"
@@ -201,6 +202,9 @@ func (w *World) applyUnchecked(prev *World, b types.Block, bs consensus.V1BlockS
 		return problem("proof|update-panic", "folding the ApplyUpdate into a store with up-to-date proofs panicked: %v\n%s", p, st)
 	}
 	if serr != nil {
+		if strings.Contains(serr.Error(), "is changed by refreshing it") {
+			return problem("proof|created-element-refreshed", "%v", serr)
+		}
 		return problem("store|diffs", "update diffs inconsistent: %v", serr)
 	}
 	// reference ledger from block contents
